@@ -56,4 +56,6 @@ BFamExport == {Rules, {}} \cup {Rules \ {r} : r \in Rules} \cup {{r} : r \in Rul
                     Rules \ {"none", "supp"}, {"sc", "supp"}, {"sns", "sfns", "none"},
                     Rules \ {"sns", "msf", "sfns", "fmt"}}
 BFamDefault == {Rules}
+\* "disabling one behaviour": everything on, and exactly one off
+BFamOneOff == {Rules} \cup {Rules \ {r} : r \in Rules}
 =============================================================================
